@@ -79,6 +79,17 @@ def chain(Y, ix, k):
     return M
 
 
+def schain(Y1, Y2, k):
+    k = int(k)
+    _dom(0 <= k < 8, 'schain index')
+    M = kc_dom(Y1[0], Y2[0]).sum(axis=1)
+    for t in range(1, k + 1):
+        N = kc_dom(Y1[t], Y2[t]).sum(axis=1)
+        _dom(M.shape[1] == N.shape[0], 'schain of malformed tensors')
+        M = M @ N
+    return M
+
+
 # NB: the axioms are claimed on the domain where the NumPy operation is defined; every use site in the engine proves the
 # domain condition as a call-pre / safety obligation.  Outside the domain the symbols are unconstrained total functions.
 INTERP = {
@@ -90,7 +101,7 @@ INTERP = {
     'zeros': lambda m, n: np.zeros((int(m), int(n))), 'eye': lambda n: np.eye(int(n)),
     'ent': lambda a, i, j: a[int(i), int(j)], 'row': row,
     'cat0': lambda g, h: np.concatenate([g, h], axis=0), 'cat2': lambda g, h: np.concatenate([g, h], axis=2),
-    'zc': lambda a, b, c: np.zeros((int(a), int(b), int(c))), 'cscale': lambda c, g: float(c) * g, 'kc': kc_dom, 'chain': chain,
+    'zc': lambda a, b, c: np.zeros((int(a), int(b), int(c))), 'cscale': lambda c, g: float(c) * g, 'kc': kc_dom, 'chain': chain, 'schain': schain,
     'unfL': lambda g: np.reshape(g, (g.shape[0] * g.shape[1], g.shape[2]), order='F'),
     'unfR': lambda g: np.reshape(g, (g.shape[0], g.shape[1] * g.shape[2]), order='F'),
     'foldL': lambda a, r, n: np.reshape(a, (int(r), int(n), a.shape[1]), order='F'),
